@@ -1461,6 +1461,54 @@ theorem locate_sound_example :
 
 
 
+/-! ### the reported position is the FIRST rejected one -/
+
+theorem firstBad_min (O : Oracles) (f : FieldDecl) : ∀ (xs : List PyVal) (n i : Nat) (x : PyVal),
+    firstBad O f n xs = some (i, x) →
+      ∀ j, n + j < i → ∃ y, xs[j]? = some y ∧ isOk (validate O f y) = true := by
+  intro xs
+  induction xs with
+  | nil => intro n i x h; simp [firstBad] at h
+  | cons y ys ih =>
+    intro n i x h j hj
+    simp only [firstBad] at h
+    split at h
+    · rename_i hy
+      cases j with
+      | zero => exact ⟨y, rfl, hy⟩
+      | succ j' =>
+        obtain ⟨z, hz, hok⟩ := ih (n + 1) i x h j' (by omega)
+        exact ⟨z, by simpa using hz, hok⟩
+    · simp only [Option.some.injEq, Prod.mk.injEq] at h
+      omega
+
+/-- Array / Deque of `item`: when the path starts with `_<i>`, every element before `i` is accepted
+    by the item field — the message names the FIRST invalid element (at every level, by recursion
+    through `locate_sound`) -/
+theorem locate_seqOf_first (O : Oracles) (k : SeqKind) (item : FieldDecl) (sz : SizeOpts) (v : PyVal)
+    (i : Nat) (p : SufPath) (h : (locate O (.seqOf k item sz) v).suffix = .idx i :: p) :
+    ∃ xs, seqElems k v = some xs ∧ (∃ x, xs[i]? = some x ∧ isOk (validate O item x) = false ∧
+        p = (locate O item x).suffix) ∧
+      ∀ j, j < i → ∃ y, xs[j]? = some y ∧ isOk (validate O item y) = true := by
+  simp only [locate] at h
+  cases locSeqLike_cases (seqElems k v) sz.uniq sz (fun _ => true) (badOf O item (locate O item)) with
+  | inl h0 => rw [h0] at h; simp at h
+  | inr h1 =>
+    obtain ⟨xs, l, hxs, hb, hl⟩ := h1
+    rw [hl] at h
+    simp only [badOf, Option.map_eq_some_iff] at hb
+    obtain ⟨⟨i', x⟩, hfb, hl'⟩ := hb
+    rw [← hl'] at h
+    simp only [withSuffix, List.cons.injEq, Suffix.idx.injEq] at h
+    obtain ⟨hi, hp⟩ := h
+    subst hi
+    obtain ⟨j, hj, hx, hbad⟩ := firstBad_spec O item xs 0 i' x hfb
+    refine ⟨xs, hxs, ⟨x, ?_, hbad, hp.symm⟩, ?_⟩
+    · have : i' = j := by omega
+      rw [this]; exact hx
+    · intro j' hj'
+      exact firstBad_min O item xs 0 i' x hfb j' (by omega)
+
 /-! ### class names typedpy itself produces are in `[\w.]+` -/
 
 theorem all_alnum_fieldChars (W : Word) (hW : W.Sound) (t : Text) (h : t.all Char.isAlphanum = true) :
